@@ -82,6 +82,9 @@ BUILTIN_RAISES = [
     ('user-exception-args-raises', "class MyError(Exception):\n    @property\n    def args(self):\n        raise RuntimeError('no args')\nraise MyError('mine')"),
     ('user-exception-getattr-raises', "class MyError(Exception):\n    def __getattr__(self, name):\n        raise RuntimeError('no attribute ' + name)\nraise MyError('mine')"),
     ('user-exception-metaclass-name', "class Meta(type):\n    def __str__(cls):\n        raise RuntimeError('no class str')\n    __repr__ = __str__\nclass MyError(Exception, metaclass=Meta):\n    pass\nraise MyError('mine')"),
+    ('user-exception-str-returns-str-subclass', "class Odd(str):\n    def __getitem__(self, k):\n        raise RuntimeError('no slicing')\n    def upper(self):\n        raise RuntimeError('no upper')\nclass MyError(Exception):\n    def __str__(self):\n        return Odd('mine')\nraise MyError('mine')"),
+    ('user-exception-class-name-empty', "class MyError(Exception):\n    pass\nMyError.__name__ = ''\nraise MyError('mine')"),
+    ('user-exception-metaclass-name-raises', "class Meta(type):\n    @property\n    def __name__(cls):\n        raise RuntimeError('no name')\nclass MyError(Exception, metaclass=Meta):\n    pass\nraise MyError('mine')"),
     ('user-exception-str-replaces-stdout', "import sys\nclass MyError(Exception):\n    def __str__(self):\n        sys.stdout = None\n        return 'mine'\nraise MyError('mine')"),
     ('user-exception-str-replaces-sleep', "import time\nclass MyError(Exception):\n    def __str__(self):\n        time.sleep = len\n        return 'mine'\nraise MyError('mine')"),
     ('user-exception-str-imports', "class MyError(Exception):\n    def __str__(self):\n        import colorsys, sndhdr\n        return 'mine'\nraise MyError('mine')"),
@@ -307,7 +310,7 @@ def reference(files, entry, inputs, call_args=()):
                     pass
             except BaseException as e:
                 r.exc = e
-                r.cls = type(e).__name__
+                r.cls = class_name(e)
                 tb = traceback.extract_tb(e.__traceback__)
                 if tb:
                     r.innermost_file = tb[-1].filename
@@ -389,14 +392,23 @@ def safe_text(exc):
     try:
         return traceback.format_exception_only(type(exc), exc)[-1][:300]
     except BaseException as e:
-        return '<%s, not printable: %s>' % (type(exc).__name__, type(e).__name__)
+        return '<%s, not printable: %s>' % (class_name(exc), type(e).__name__)
+
+
+def class_name(x):
+    """the name of x's class - None when that class has no usable name (emptied, or a metaclass that refuses to tell)"""
+    try:
+        n = type(x).__name__
+    except BaseException:
+        return None
+    return n if isinstance(n, str) and n else None
 
 
 def safe_repr(x):
     try:
         return repr(x)
     except BaseException as e:
-        return '<%s object, repr raises %s>' % (type(x).__name__, type(e).__name__)
+        return '<%s object, repr raises %s>' % (class_name(x), type(e).__name__)
 
 
 def site_of(exc):
@@ -628,12 +640,12 @@ def _measured(ctx, which, case, sandbox, report, files, inputs, n_rt_before):
     if kind == 'blocked':
         want_cls = case.get('cls')
         if want_cls is None and exc is not None:
-            want_cls = type(exc).__name__
+            want_cls = class_name(exc)
         ctx.count('blocked_feature_cases')
     if exc is None:
         ctx.violation('C04|exception-not-recorded|%s|%s' % (mode_family(mode), key_tail), strip(case), 'get_exception() is None, reference: %s' % safe_repr(ref.exc))
     else:
-        got_cls = type(exc).__name__
+        got_cls = class_name(exc)
         if isinstance(exc, BaseException) is False:
             ctx.violation('C04|exception-not-an-exception|%s' % mode_family(mode), strip(case), safe_repr(exc)[:200])
         elif want_cls is not None and got_cls != want_cls:
